@@ -67,7 +67,7 @@ pub fn gen(seed: u64, thorough: bool) -> Vec<String> {
                     h = (h + mh - 1) / mh * mh;
                 }
             }
-            let mipmode = *rng.pick(&["n", "n", "e", "g", "g"]);
+            let mipmode = *rng.pick(&["n", "n", "e", "g", "g", "m"]);
             let color = rng.below(12);
             let pitch_extra = *rng.pick(&[0u32, 0, 0, 1, 7, 64]);
             let quality = if is_bc { *rng.pick(&["fast", "fast", "fast", "normal"]) } else { "fast" };
@@ -180,6 +180,7 @@ pub fn run(line: &str) -> Option<(String, Vec<String>)> {
         _ => Dithering::None,
     };
     enc.options.parallel = t[13] == "1";
+    // mode m: the caller supplies level 0 with generation off, then turns generation on
     enc.mipmaps.generate = mipmode == "g";
     let layout = enc.layout();
     let data_len = layout.data_len();
@@ -197,6 +198,9 @@ pub fn run(line: &str) -> Option<(String, Vec<String>)> {
         let view = ImageView::new_with(&buf, pitch, size, color)?;
         let r = enc.write_surface(view);
         calls += 1;
+        if mipmode == "m" {
+            enc.mipmaps.generate = true;
+        }
         let after = sink.0.borrow().len();
         lens.push(format!("{}", after - header_len));
         match r {
